@@ -11,7 +11,7 @@ from .expr import Resolver, strip_bb
 from .flow import fields_only, overlaps
 
 CMP = ("Eq", "Ne", "Lt", "Le", "Gt", "Ge")
-TRY_BRANCH = ("std::ops::Try::branch", "core::ops::Try::branch")
+TRY_BRANCH = ("std::ops::Try::branch", "std::ops::Try::branch")
 
 
 def expr_paths(e, acc=None):
